@@ -235,8 +235,10 @@ Lemma nth_col : forall (mk : list (list nat)) i j, nth i (map (fun row => nth j 
 Proof.
   intros. unfold get2.
   destruct (Nat.lt_ge_cases i (length mk)) as [Hi|Hi].
-  - rewrite (nth_indep _ 0 ((fun row => nth j row 0) [])) by (rewrite map_length; exact Hi).
-    rewrite map_nth. reflexivity.
+  - pose (f := fun row : list nat => nth j row 0).
+    change (nth i (map f mk) 0 = f (nth i mk [])).
+    rewrite (nth_indep _ 0 (f [])) by (rewrite map_length; exact Hi).
+    apply map_nth.
   - rewrite nth_overflow by (rewrite map_length; lia). rewrite (nth_overflow mk) by lia. destruct j; reflexivity.
 Qed.
 
@@ -299,6 +301,12 @@ Proof.
 Qed.
 
 (* ---------- Z-instantiated accessors ---------- *)
+Arguments sC {K} _.
+Arguments sM {K} _.
+Arguments sRC {K} _.
+Arguments sCC {K} _.
+Arguments sZ0 {K} _.
+Arguments mkState {K} _ _ _ _ _.
 Definition st := state Z.
 Definition gC (s : st) (i j : nat) : Z := get2 0%Z (sC s) i j.
 Definition gM (s : st) (i j : nat) : nat := get2 0 (sM s) i j.
